@@ -7,7 +7,7 @@
    run loop.  Go's channel (capacity 1 = one-slot option) and sync.Mutex (atomic sections)
    semantics are assumed by the model. *)
 From Eino Require Import Base.Util Model.TaskMgr Model.Confluence Model.EagerSkip Model.RunHandoff.
-From Eino Require Import Proofs.TaskMgr Proofs.TaskMgrProgress Proofs.TaskMgrTrace Proofs.Confluence Proofs.Eager Proofs.HandoffOrder Proofs.TaskMgrComplete Proofs.TaskMgrOrders Proofs.RunHandoff Proofs.RunHandoffOrder Proofs.RunHandoffLive Proofs.RunHandoffLiveBatch Proofs.RunHandoffSched Proofs.EagerSkip.
+From Eino Require Import Proofs.TaskMgr Proofs.TaskMgrProgress Proofs.TaskMgrTrace Proofs.Confluence Proofs.Eager Proofs.HandoffOrder Proofs.TaskMgrComplete Proofs.TaskMgrOrders Proofs.RunHandoff Proofs.RunHandoffOrder Proofs.RunHandoffLive Proofs.RunHandoffLiveBatch Proofs.RunHandoffSched Proofs.RunHandoffReturn Proofs.EagerSkip.
 From Coq Require Import Permutation.
 
 (* ---- every finished task is in exactly one of l / done / the collector's hands / collected;
@@ -428,6 +428,31 @@ Theorem run_eager_every_schedule_realised : forall g F pick fuel out log lft,
   exists s r, creach false Dag g F (s, r) /\ r_res r = Some out /\ r_log r = log /\ ids_of (r_run r) = lft.
 Proof. intros g F pick fuel out log lft Hnd Hs. exact (every_schedule_realised g Hnd Hs F pick fuel out log lft). Qed.
 Print Assumptions run_eager_every_schedule_realised.
+
+(* "does not return before the nodes have finished", batch mode: when a batch run returns - and ever
+   after - every task that was ever handed to the task manager has been collected, exactly once;
+   nothing is in transit and nothing can move any more (every executor has left the protocol) *)
+Theorem run_batch_return_all_collected : forall m g F s r,
+  creach true m g F (s, r) -> r_res r <> None ->
+  Permutation (map fst (collected s)) (map fst (epcs s)) /\ NoDup (map fst (collected s)) /\
+  l s = [] /\ done s = None /\ (forall s', ~ dstep s s').
+Proof. exact batch_return_all_collected. Qed.
+Print Assumptions run_batch_return_all_collected.
+
+(* eager mode: when the run returns - and ever after - the tasks the run loop of the model has in flight
+   are exactly the tasks that were handed to the task manager and have not been collected; with
+   run_eager_ancestors_finished: at a value return every task that feeds END has been collected *)
+Theorem run_eager_return_inflight : forall g F s r,
+  NoDup (map n_id g) -> ~ In START (map n_id g) ->
+  creach false Dag g F (s, r) -> r_res r <> None ->
+  forall x, In x (ids_of (r_run r)) <-> (In x (map fst (epcs s)) /\ ~ In x (map fst (collected s))).
+Proof. intros g F s r Hnd Hs. exact (eager_return_inflight g Hnd Hs F s r). Qed.
+Print Assumptions run_eager_return_inflight.
+
+(* the protocol alone: a drained state (waitAll has returned) is completely quiescent *)
+Theorem tm_drained_quiescent : forall s, reach s -> drained s -> mu s = 0%nat /\ l s = [] /\ done s = None.
+Proof. exact drained_quiescent. Qed.
+Print Assumptions tm_drained_quiescent.
 
 (* non-vacuity: an eager path that returns END's value and leaves task 4 in flight; a batch path in
    which the step is collected in the order 4, 3 and that returns the canonical result *)
